@@ -672,6 +672,11 @@ unsafe impl Sync for SecureChunk {}
 /// Lock-free stack for high-performance chunk storage (Treiber stack)
 struct LockFreeStack<T> {
     head: AtomicPtr<Node<T>>,
+    /// Serialises `pop`. With a single popper at a time no node can be freed (or freed and
+    /// reused) between loading `head` and the compare-exchange, which rules out both the
+    /// use-after-free of `(*head).next` and the ABA hazard of a bare Treiber pop.
+    /// `push` stays lock-free.
+    pop_lock: std::sync::Mutex<()>,
 }
 
 struct Node<T> {
@@ -683,6 +688,7 @@ impl<T> LockFreeStack<T> {
     fn new() -> Self {
         Self {
             head: AtomicPtr::new(std::ptr::null_mut()),
+            pop_lock: std::sync::Mutex::new(()),
         }
     }
 
@@ -713,6 +719,7 @@ impl<T> LockFreeStack<T> {
     }
 
     fn pop(&self) -> Option<T> {
+        let _single_popper = self.pop_lock.lock().unwrap_or_else(|e| e.into_inner());
         loop {
             let head = self.head.load(Ordering::Acquire);
             if head.is_null() {
